@@ -12,6 +12,7 @@ pub mod c05;
 pub mod c06;
 pub mod c07;
 pub mod c08;
+pub mod c08_sched;
 pub mod c09;
 pub mod c10;
 pub mod c11;
@@ -121,6 +122,7 @@ pub fn run_saved_replays(ctx: &Ctx) {
 pub fn worker_main(args: &[String]) -> i32 {
     match args.first().map(|s| s.as_str()) {
         Some("parsers") => crate::engine::worker::worker_loop(targets::parser_target),
+        Some("c08sched") => c08_sched::worker_main(&args[1..]),
         _ => 2,
     }
 }
